@@ -128,6 +128,7 @@ def handle (op : String) (j : Json) : Except String Json := do
         ("groups", Json.arr (doc.groups.map fun g => Json.arr #[jstr g.id, jstr g.cls]).toArray),
         ("refs", jstrs doc.refs),
         ("defs", Json.arr (doc.defs.map fun e => Json.arr #[Json.str (kindName e.kind), jstr e.id, jstrs e.ids]).toArray),
+        ("noClash", Json.bool (noClash T.symbols (doc.defs.map (·.id)))),
         ("log", Json.arr ((doc.log.eraseDups).map fun b => Json.str (brName b)).toArray)])])
     | .error e => pure (Json.mkObj [("raise", Json.str (errName e))])
   | "svg.draw" =>
